@@ -109,15 +109,20 @@ func NewFileSequencePad(sequence string, style PadStyle) (*FileSequence, error) 
 		} else {
 			// Try to see if we can at least find a specific frame
 			// number, a la  .<frame>.ext
-			parts = singleFramePattern.FindStringSubmatch(sequence)
+			// The frame number is looked for in the file name only: matched
+			// against the whole path, the extension group can swallow a
+			// directory separator ("d1.x/foo") and move the split into the
+			// directory part.
+			_, fileName := filepath.Split(sequence)
+			parts = singleFramePattern.FindStringSubmatch(fileName)
 			if len(parts) > 0 {
 				frameStr := parts[2]
 				frameSet, err = NewFrameSet(frameStr)
 				if err != nil {
 					frameSet = nil
 				} else {
-					// Reparse the dir/basename to not include the trailing frame
-					dir, basename = filepath.Split(parts[1])
+					// The basename does not include the trailing frame
+					basename = parts[1]
 
 					// Calculate the padding chars
 					pad = padder.PaddingChars(len(strings.TrimSpace(frameStr)))
